@@ -246,7 +246,7 @@ func doEq(b *route.Built, r EqReq) eqOutcome {
 		req = drive.Request(r.Verb, r.Path, r.Query, hdr, nil, 0)
 	}
 	res := drive.Serve(b.Mux, req)
-	o := eqOutcome{status: res.Rec.Code, ctype: res.Rec.Header().Get("Content-Type"), body: res.Rec.Body.String()}
+	o := eqOutcome{status: res.Rec.Code, ctype: res.Hdr.Get("Content-Type"), body: res.Rec.Body.String()}
 	if res.Panic != nil {
 		o.panic = res.PanicSig()
 	}
